@@ -1,5 +1,5 @@
 // @unit id=v_store_queue props=C06,C19,C01,C08 tier=quick
-// Verus contracts on the REAL bodies of src/proto/streams/store.rs `Queue::{new, push, push_front, pop, is_empty}` — generic
+// Verus contracts on the REAL bodies of src/proto/streams/store.rs `Queue::{new, take, push, push_front, pop, pop_if, is_empty}` — generic
 // over the link trait `Next` — and of the `Next` implementations NextAccept / NextSend / NextSendCapacity / NextWindowUpdate / NextOpen in
 // stream.rs (extracted on every run): the intrusive scheduler queues (pending_send, pending_capacity, pending_open,
 // pending_accept, pending_window_updates, pending_reset_expired) that are threaded through the stream records of the store.
@@ -319,6 +319,34 @@ impl<N: Next> Queue<N> {
     //@spec         forall|k: Key| old(store).m@.dom().contains(k) && !(keys.len() > 0 && k == keys[0]) ==> final(store).m@[k] == old(store).m@[k],
     //@after let stream = idxs.head;=>let ghost m0 = old(store).m@; proof { assert(keys.len() > 0); assert(keys[0] == stream); if idxs.head == idxs.tail { assert(keys.len() == 1) by { if keys.len() > 1 { assert(keys[0] == keys[keys.len() - 1]); } } } }
     //@before return Some(stream);=>proof { let m2 = store.m@; let keys2 = keys.drop_first(); let n = keys.len() as int; assert(forall|i: int| 0 <= i < n - 1 ==> keys2[i] == keys[i + 1]); assert(forall|i: int| 1 <= i < n ==> keys[i] != stream); assert forall|k: Key| m2.dom().contains(k) && N::s_queued(#[trigger] m2[k]) implies keys2.contains(k) by { assert(k != stream); assert(N::s_queued(m0[k])); assert(keys.contains(k)); let i = choose|i: int| 0 <= i < n && keys[i] == k; assert(i >= 1); assert(keys2[i - 1] == k); } assert(keys2.no_duplicates()); assert(q_inv(*self, m2, keys2)); assert(m2.dom() =~= m0.dom()); assert(only_links::<N>(m0, m2)); }
+    //@end
+
+    // pop_if (used by Recv::clear_expired_reset_streams with a clock predicate): the FRONT is popped exactly when the
+    // predicate holds for it; otherwise — or when the queue is empty — nothing changes.  Only the front is ever looked at.
+    //@extract src/proto/streams/store.rs Queue::pop_if
+    //@subst pub fn pop_if<'a, R, F>(&mut self, store: &'a mut R, f: F) -> Option<store::Ptr<'a>>=>pub fn pop_if<F>(&mut self, store: &mut Store, f: F, Ghost(keys): Ghost<Seq<Key>>) -> Option<Key>
+    //@subst_re R: Resolve,\s*=>
+    //@subst_re f\(&store\.resolve\(idxs\.(\w+)\)\)=>f(store.index(idxs.\1))
+    //@before let should_pop =>proof { assert(keys[0] == idxs.head); assert(keys[keys.len() - 1] == idxs.tail); }
+    //@subst return self.pop(store);=>return self.pop(store, Ghost(keys));
+    //@ret r
+    //@spec     requires
+    //@spec         q_inv(*old(self), old(store).m@, keys),
+    //@spec         forall|s: &Stream| #[trigger] f.requires((s,)),
+    //@spec     ensures
+    //@spec         only_links::<N>(old(store).m@, final(store).m@),
+    //@spec         keys.len() == 0 ==> r is None && *final(self) == *old(self) && final(store).m@ == old(store).m@,
+    //@spec         keys.len() > 0 ==> (
+    //@spec             (r == Some(keys[0]) && f.ensures((&old(store).m@[keys[0]],), true) && q_inv(*final(self), final(store).m@, keys.drop_first())
+    //@spec                 && !N::s_queued(final(store).m@[keys[0]]))
+    //@spec             || (r is None && f.ensures((&old(store).m@[keys[0]],), false) && *final(self) == *old(self) && final(store).m@ == old(store).m@)),
+    //@end
+
+    //@extract src/proto/streams/store.rs Queue::take
+    //@ret r
+    //@spec     ensures r.indices == old(self).indices, final(self).indices is None,
+    //@spec         // the whole list moves: what was I-queue for `self` is I-queue for the result
+    //@spec         forall|m: Map<Key, Stream>, keys: Seq<Key>| q_inv(*old(self), m, keys) ==> #[trigger] q_inv(r, m, keys),
     //@end
 
     //@extract src/proto/streams/store.rs Queue::new
